@@ -2,8 +2,7 @@
 Props/C05_Aac.lean — C05 / C04 statements for AAC ADTS / ADIF (mutagen/aac.py `AACInfo`).
 Layout: Spec/Info/Aac.lean (ADTS header), parser: Model/Info/Aac.lean, frequency table: Generated/Tables.lean.
 
-NOT proved here: `aac_info_decodes` for all header field values (the frame loop over a symbolic frame list);
-the statements below are totality, the table rows, and closed instances checked by kernel evaluation.
+The ADIF header has no specification side yet (model and totality only).
 -/
 import MutagenModel.Proofs.Info.Aac
 set_option linter.unusedVariables false
@@ -20,6 +19,25 @@ theorem aac_freqs_rows :
 frame loop, every program config element) either succeeds or raises a `MutagenError` (`AACError`); the
 `assert`s of the stream properties are never reached without a parsed frame. -/
 theorem aac_info_total (f : Bytes) : ∀ e, parse f = .error e → e = .mutagen := parse_total f
+
+/-- the bit fields of a big-endian word inside a file, read through the model's bit reader, are the arithmetic
+bit fields of the word -/
+theorem aac_bitreader_word (pre more : Bytes) (k H off w : Nat) (h : off + w ≤ 8 * k) :
+    bitsAt (pre ++ (toBE k H ++ more)) (8 * pre.length + off) w = H / 2 ^ (8 * k - off - w) % 2 ^ w :=
+  bitsAt_word pre more k H off w h
+
+/-- C05 for AAC ADTS: for EVERY stream of 3 to 100 frames with a common fixed header — MPEG-2/4 ID, all four
+profiles, the 13 sampling-frequency indices, private / original / home bits, protection absent or present — and per
+frame any copyright bits, buffer fullness, 1-4 raw data blocks and any body bytes (frame length up to 8191), the
+file consisting of these frames, `AACInfo` reports exactly the encoded sampling frequency, the channel count of the
+channel configuration, the bit rate of the raw data blocks (`payload bits · rate // samples`, headers and
+error-check data excluded) and, as `length`, its documented estimate `samples · (N - 1) / (N · rate)` (N = file size)
+— PROVIDED the channel configuration is not 0 (the layout then travels in a program config element inside the raw
+data, which mutagen does not read: `adts_chanconfig0_reports_zero_channels`).  (Of a longer stream mutagen looks at
+the first 100 frames only.) -/
+theorem aac_adts_info_decodes_partial (h : Adts) (ok : h.OK) (hcc : h.chanConfig ≠ 0) (h100 : h.frames.length ≤ 100) :
+    parse (build h) = .ok { expected h with length := lengthEstimate h } :=
+  parse_adts h ok h100
 
 /-- a stream of four 44100 Hz stereo frames (MPEG-4 LC, no CRC) of 16, 17, 18, 19 bytes -/
 def adtsSample : Adts :=
